@@ -291,7 +291,7 @@ def sub_slash(ctx, shard, n):
 
 def sub_poly(ctx, shard, n):
     shs = _ref_shorthands()
-    ctx.given("chord", check_chord, _st_poly(shs), 2500 if ctx.quick else 5000)
+    ctx.given("chord", check_chord, _st_poly(shs), 2500 if ctx.quick else 15000)
 
 
 def sub_lists(ctx, shard, n):
@@ -299,7 +299,7 @@ def sub_lists(ctx, shard, n):
     noslash = [sh for sh in shs if "/" not in sh]
     el = _st_plain(shs) | _st_slash(noslash) | _st_poly(shs) | st.just(["nc", "NC"])
     ctx.enumerate("list", check_list, [[]])
-    ctx.given("list", check_list, st.lists(el, min_size=0, max_size=6), 600 if ctx.quick else 5000)
+    ctx.given("list", check_list, st.lists(el, min_size=0, max_size=6), 600 if ctx.quick else 10000)
 
 
 JUNK = "xXyzqQkKhHtT0123489()+ #b.suдko?!*\n"
